@@ -55,6 +55,8 @@ impl RuntimeLimits {
     }
 
     pub fn check_permission(&self, permission: &Permission) -> RuntimeResult<()> {
+        #[cfg(xray_verif)]
+        crate::verif::on_perm(permission.id, self.permissions.get(permission));
         if self.permissions.get(permission) {
             Ok(())
         } else {
@@ -139,6 +141,14 @@ impl<W, R, T> Runtime<W, R, T> {
     }
 
     pub fn check_timeout(&self) -> RuntimeResult<()> {
+        #[cfg(xray_verif)]
+        {
+            let deadline = self.stats.borrow().timeout;
+            crate::verif::on_timechk(
+                deadline.is_some(),
+                deadline.map_or(false, |d| d <= Instant::now()),
+            );
+        }
         self.stats
             .borrow()
             .timeout
@@ -151,6 +161,8 @@ impl<W, R, T> Runtime<W, R, T> {
         if let Some(ud_limit) = self.limits.ud_call_limit {
             let mut stats = self.stats.borrow_mut();
             stats.ud_calls += 1;
+            #[cfg(xray_verif)]
+            crate::verif::on_inc(stats.ud_calls, ud_limit);
             if stats.ud_calls >= ud_limit {
                 return Err(RuntimeViolation::MaximumUDCall);
             }
@@ -176,6 +188,11 @@ impl<W, R, T> Runtime<W, R, T> {
                     stats.size
                 );
             }
+            #[cfg(xray_verif)]
+            {
+                let (kind, payload) = value.verif_kind_payload();
+                crate::verif::on_alloc(kind, payload, size.0, stats.size.0, max_size);
+            }
             if usize::from(stats.size) > max_size {
                 Err(RuntimeViolation::AllocationLimitReached)
             } else {
@@ -189,6 +206,10 @@ impl<W, R, T> Runtime<W, R, T> {
     pub(crate) fn deallocate(&self, size: AllocatedMemory) {
         if !size.is_zero() {
             self.stats.borrow_mut().size -= size
+        }
+        #[cfg(xray_verif)]
+        if !size.is_zero() {
+            crate::verif::on_dealloc(size.0, self.stats.borrow().size.0);
         }
     }
 }
